@@ -420,6 +420,10 @@ BODY_JUNK = [
     ('256A', 'str:long', _j('A' * 256)), ('nonascii', 'str:nonascii', _j(NONASCII)),
     ('nul', 'str:ctrl', b'"x\\u0000y"'), ('newline', 'str:ctrl', b'"x\\n"'),
     ('surrogate', 'str:surrogate', b'"\\ud800"'),
+    # the same escape in the other spellings JSON allows (hex digits are case-insensitive), and a
+    # lone LOW surrogate inside a longer string
+    ('surrogate-uc', 'str:surrogate', b'"\\uD800"'),
+    ('surrogate-low', 'str:surrogate', b'"x\\uDc00y"'),
     ('badutf8', 'bytes:invalid-utf8', b'"\xff\xfe"'),
     ('[]', 'list', b'[]'), ('{}', 'dict', b'{}'),
     ('deep', 'deep', b'[' * 100 + b']' * 100),
